@@ -248,6 +248,9 @@ func Run(t *testing.T, o Options, body func(w *World)) *core.Result {
 		body(w)
 
 		err := s.Run(func() bool { core.Beat(); return w.DriversDone() })
+		if err == core.ErrSteps {
+			res.StepBudgetHit = true
+		}
 		if err != nil {
 			w.Fail("hang", "scheduler stopped (%v) at sim t=%v after %d steps; drivers still running: %v\n%s",
 				err, s.Now(), s.Steps, w.Unfinished(), core.Describe(core.BubbleOthers(w.rootGID, nil)))
